@@ -4,7 +4,7 @@ import hashlib
 import numpy as np
 from hypothesis import strategies as st
 
-from vf.core import Decline, Prop, Violation, case_hash, innermost_funsor_frame
+from vf.core import robust_gen, Decline, Prop, Violation, case_hash, innermost_funsor_frame
 from vf.gen import SeedSource
 from vf.lang import show, typeof, walk
 from vf.props.c02 import gen_case as gen_program
@@ -85,7 +85,7 @@ class C20(Prop):
     cases = {"quick": 2000, "thorough": 80000}
 
     def strategy(self, tier):
-        return st.integers(0, 2**40).map(gen_case)
+        return st.integers(0, 2**40).map(robust_gen(gen_case))
 
     def describe(self, case):
         return f"[{case['family']}/{case['mode']}; readonly={case['readonly']}; then {case['followups']}] {show(case['ast'])}"
